@@ -28,6 +28,9 @@ import Golib.ZipSender.Answers
 import Golib.ZipSender.Loop
 import Golib.ZipSender.LogSink
 import Golib.ZipSender.Timing
+import Golib.ZipSender.WireFacts
+import Golib.ZipSender.Client
+import Golib.ZipSender.LoopStop
 
 namespace C16
 open ZipSender
@@ -397,11 +400,100 @@ theorem loop_cancel_exits (l : LState ρ) (k : Int) (hi : LInv l) (hpc : l.pc = 
     l'.pc = .exited ∧ l'.core.queue = [] ∧ l'.core.bufLen = 0 ∧ l'.core.stopped = true :=
   cancel_exits .fixed Z C rfl rfl l k hi hpc hc
 
+/-- **the stop clause over the schedules of the real loop** (repaired code): after ANY schedule `as` —
+    producers, SendDirect callers, configuration updates, clock readings interleaved at will — that leaves
+    the loop at its `select` with the context cancelled, the next `select` exits the loop, and at that
+    moment the shared packs handed over hold exactly the serialisable records the queue ever accepted,
+    in order: nothing is left in the queue or in the batch -/
+theorem loop_exit_emits_everything (hne : ∀ r, C.enc r ≠ []) (st : Settings) (ans : List Bool) (as : List (Act ρ)) (k : Int)
+    (hpc : (lrun .fixed Z C (linit st ans) as).1.pc = .top) (hc : (lrun .fixed Z C (linit st ans) as).1.cancelled = true) :
+    (lrun .fixed Z C (linit st ans) (as ++ [.select k])).1.pc = .exited ∧
+    sharedRecs (lrun .fixed Z C (linit st ans) (as ++ [.select k])).2 =
+      good C (accepted .fixed Z C (init st ans) (absHist .fixed Z C (linit st ans) (as ++ [.select k]))) :=
+  exit_emits_everything .fixed Z C rfl rfl hne st ans as k hpc hc
+
 /-- the verification hook `StepForVerif` that the deterministic harness drives is exactly one
     iteration of the modelled loop in which the first round already finds the deadline reached -/
 theorem hook_step_is_loop_body (l : LState ρ) (t : Int) (hi : LInv l) (hpc : l.pc = .top) (hc : l.cancelled = false) :
     lrun v Z C l [.select t, .poll (t + l.core.settings.maxWait)] = hookStep v Z C l :=
   hookStep_is_loop_body v Z C l t hi hpc hc
+
+/-! ### the pack on the wire and at the receiver (ZipPack.Write / Read / GetRecords / SetRecords) -/
+
+/-- **ZipPack.Write → ZipPack.Read**: the client transmits the pack with `pack.WritePack` (type code
+    0x170b, header, status byte, decimal record count, blob); whatever header `hdr` the transmitting side
+    stamped it with and whatever follows in the stream (`rest`), `pack.ReadPack` — with the reader layout
+    regenerated from `ZipPack.Read` — delivers the same header, status, record count and payload, and
+    leaves `rest`.  Guards: the Go field ranges (count an int64, payload a blob below 2 GiB). -/
+theorem transmitted_pack_reads_back (fac : Packs.Factory) (hf : Wire.FacZ fac) (hdr : Layout.Hdr) (hh : hdr.WF)
+    (p : Pack ρ) (rest : Bytes) (hc : (p.count : Int) < 9223372036854775808) (hl : p.payload.length < 2147483648) :
+    Wire.unwire fac (Wire.wirePack hdr p ++ rest) = some (⟨hdr, Wire.statusOf p, p.count, p.payload⟩, rest) := by
+  have hw : Wire.WFZip hdr (Wire.statusOf p) p.count p.payload := by
+    refine ⟨hh, ?_, ?_, hl⟩
+    · unfold Wire.statusOf; split <;> omega
+    · rw [Prim.inRange_8]; omega
+  exact Wire.unwire_wire fac hf hdr _ _ _ rest hw
+
+/-- **end to end, through the wire**: every pack the sender emits (records = LogSinkPacks in C03's
+    layout), transmitted with `WritePack`, received with `ReadPack`, decompressed when `Status == ZIPPED`
+    and opened with `ZipPack.GetRecords`, yields exactly the sender's records of that pack, in order,
+    each stamped with the container's Pcode/Oid/Okind/Onode — for every history, every client answer,
+    every settings, any trailing bytes.  Hypotheses: gzip round-trips (`Unzip`), the records are within
+    the writer's guards, the Go field ranges of the container. -/
+theorem receiver_end_to_end (hr : v.sound = true) (U : Unzip Z) (fac : Packs.Factory) (hf : LogSink.Fac fac)
+    (hz : Wire.FacZ fac) (hdr : Layout.Hdr) (hh : hdr.WF) (st : Settings) (ans : List Bool)
+    (h : List (In Layout.Rec)) (rest : Bytes) :
+    ∀ p ∈ emitted v Z LogSink.codec (init st ans) h, (∀ x ∈ p.recs, LogSink.WFRec x) →
+      (p.count : Int) < 9223372036854775808 → p.payload.length < 2147483648 →
+      Wire.receive U fac (Wire.wirePack hdr p ++ rest)
+        = some (p.recs.map (fun x => Packs.stamp hdr (LogSink.pv x).carried), rest) := by
+  intro p hp hw hc hl
+  rw [Wire.receive_wirePack U fac hz hdr p rest hh hc hl,
+    receiver_gets_records v Z hr U fac hf hdr st ans h p hp hw]
+  rfl
+
+/-- **ZipPack.SetRecords**: an uncompressed pack of the sender is what `SetRecords(records)` makes of a
+    fresh ZipPack (C03's `Zip.setRecords`: `RecordCount = len(items)`, `Records` = the packs written one
+    after the other) — the sender's incremental batching and the library's own container writer agree -/
+theorem emitted_is_setRecords (hr : v.sound = true) (hdr : Layout.Hdr) (st : Settings) (ans : List Bool)
+    (h : List (In Layout.Rec)) :
+    ∀ p ∈ emitted v Z LogSink.codec (init st ans) h, p.zipped = false →
+      (⟨hdr, p.payload, p.count⟩ : Packs.Zip) = Packs.Zip.setRecords ⟨hdr, [], 0⟩ (p.recs.map LogSink.pv) := by
+  intro p hp hz
+  obtain ⟨hpay, hcnt⟩ := payload_is_c03_encoding v Z hr st ans h p hp
+  simp only [hz, Bool.false_eq_true, if_false] at hpay
+  simp only [Packs.Zip.setRecords, List.length_map, hpay, hcnt]
+
+/-! ### SetTcpClient: the client can be replaced at any time -/
+
+/-- forgetting who received what, a history with `SetTcpClient` calls anywhere in it reaches the state
+    and hands over the packs (with the settings in force) of the history without them: the switch
+    changes nothing but the destination, so **every theorem of this file holds across client switches** -/
+theorem set_client_is_transparent (s : State ρ) (k : Nat) (h : List (CIn ρ)) :
+    (crun v Z C s k h).1.1 = final v Z C s (erase h) ∧
+    (crun v Z C s k h).2.map (fun x => (x.settings, x.pack)) = (run v Z C s (erase h)).2 :=
+  crun_erase v Z C h s k
+
+/-- a switch in the middle of any history (`h1`, then `SetTcpClient(c_k')`, then `h2` without switches):
+    the hand-overs before it stand, the switch hands nothing over, and every pack handed over afterwards
+    — the batch that was under construction included — goes to the new client -/
+theorem set_client_switch (s : State ρ) (k k' : Nat) (h1 h2 : List (CIn ρ)) (hn : ∀ i ∈ h2, isSwitch i = false) :
+    (crun v Z C s k (h1 ++ .setClient k' :: h2)).2 =
+      (crun v Z C s k h1).2 ++ (crun v Z C (crun v Z C s k h1).1.1 k' h2).2 ∧
+    (∀ x ∈ (crun v Z C (crun v Z C s k h1).1.1 k' h2).2, x.dest = k') ∧
+    (crun v Z C s k (h1 ++ .setClient k' :: h2)).1.2 = k' :=
+  crun_switch v Z C h1 h2 k' hn s k
+
+include hr in
+/-- exactly once and in order **across all clients**: the records of the shared packs, taken in
+    hand-over order whichever client received them, followed by the batch under construction, are the
+    serialisable records fed to `Append`, `fed` being a merge of the dequeued and the directly appended ones -/
+theorem exactly_once_across_clients (st : Settings) (ans : List Bool) (k : Nat) (h : List (CIn ρ)) :
+    ∃ deq fed, deq ++ (crun v Z C (init st ans) k h).1.1.queue = accepted v Z C (init st ans) (erase h) ∧
+      Interleave deq (directAppends (erase h)) fed ∧
+      sharedRecs (cemitted v Z C (init st ans) k h) ++ (crun v Z C (init st ans) k h).1.1.buf.reverse = good C fed := by
+  rw [cemitted_erase, (crun_erase v Z C h (init st ans) k).1]
+  exact exactly_once_in_order v Z C hr st ans (erase h)
 
 /-! ### defaults and configuration -/
 
@@ -609,6 +701,46 @@ example (st : Settings) (ans : List Bool) (h : List (In Layout.Rec)) :=
 /-- the hypotheses of `all_emitted_at_stop` are met by a running sender with a non-empty codec -/
 example : (final .fixed xZ yC (init defaults) [.add (1, [1]), .append (2, [2])]).stopped = false := by decide
 example := all_emitted_at_stop xZ yC yC_nonempty defaults [] [.add (1, [1]), .append (2, [2])] (by decide)
+
+/-- a factory as `CreatePack` is: LogSinkPack and ZipPack readers under their type codes -/
+def facLZ : Packs.Factory := fun c =>
+  if c = LogSink.code then some Gen.Packs.LogSinkPack.r else if c = Wire.zipCode then some Gen.Packs.ZipPack.r else none
+
+/-- `receiver_end_to_end` instantiated: its factory hypotheses are satisfiable together -/
+example (st : Settings) (ans : List Bool) (h : List (In Layout.Rec)) (rest : Bytes) :=
+  receiver_end_to_end .fixed xZ rfl xU facLZ (by simp [LogSink.Fac, facLZ]) (by simp [Wire.FacZ, facLZ, LogSink.code, Wire.zipCode])
+    ⟨1, 2, 0, 0, 3⟩ (by decide) st ans h rest
+
+/-- the wire form of a concrete pack (2 records, uncompressed, payload `[1,2,3]`), followed by `[42]`:
+    type code 17 0b, short header, status 0, decimal 2, blob; it reads back and leaves `[42]` -/
+example : Wire.wire ⟨7, 31, 0, 0, 5⟩ 0 2 [1, 2, 3] = [23, 11, 1, 7, 0, 0, 0, 31, 0, 0, 0, 0, 0, 0, 0, 5, 0, 1, 2, 3, 1, 2, 3] := by
+  decide +kernel
+example : (Wire.unwire Wire.facZ (Wire.wire ⟨7, 31, 9, 0, 5⟩ 1 2 [1, 2, 3] ++ [42])).map (fun x => (x.1.hdr, x.1.status, x.1.count, x.1.records, x.2)) =
+    some (⟨7, 31, 9, 0, 5⟩, 1, 2, [1, 2, 3], [42]) := by decide +kernel
+
+/-- `transmitted_pack_reads_back` on a concrete pack (long header form, one record, trailing byte) -/
+example := transmitted_pack_reads_back (ρ := Int × Bytes) Wire.facZ Wire.facZ_ok ⟨7, 31, 9, 0, 5⟩ (by decide)
+  ⟨.shared, [(1, [1])], 1, false, [1], .owned⟩ [42] (by decide) (by decide)
+
+/-- `set_client_switch` instantiated: a batch started under client 0, the switch, then the stop -/
+example := set_client_switch .fixed xZ xC (init defaults) 0 1 [.op (.append (1, [1]))] [.op .stop] (by decide)
+
+/-- `emitted_is_setRecords` / `exactly_once_across_clients` instantiated -/
+example (st : Settings) (ans : List Bool) (h : List (In Layout.Rec)) := emitted_is_setRecords .fixed xZ rfl ⟨1, 2, 0, 0, 3⟩ st ans h
+example (st : Settings) (ans : List Bool) (h : List (CIn (Int × Bytes))) := exactly_once_across_clients .fixed xZ xC rfl st ans 0 h
+
+/-- client switches on a concrete history: the batch started under client 0 is flushed to client 1,
+    the SendDirect packs after the second switch go to client 2; nothing twice -/
+example : ((crun .fixed xZ xC (init ⟨5000, 1000, 5, 3⟩) 0
+      [.op (.append (1000, [1, 2])), .setClient 1, .op (.append (1001, [3, 4, 5])), .op (.append (1002, [6])),
+       .setClient 2, .op (.sendDirect [(1, [1, 1, 1, 1, 1]), (2, [2])]), .op .stop]).2.map
+        (fun x => (x.dest, x.pack.recs.map (·.1)))) =
+    [(1, [1000, 1001]), (2, [1]), (2, [2]), (2, [1002])] := by decide
+
+/-- `loop_exit_emits_everything` instantiated: a schedule that ends at the `select` with the context
+    cancelled while records are queued and a batch is under construction -/
+example := loop_exit_emits_everything xZ yC yC_nonempty defaults []
+  [.add (1, [1]), .select 0, .poll 0, .add (2, [2]), .add (3, [3]), .cancel] 7 (by decide) (by decide)
 
 /-- `batch_within_limits` instantiated: no configuration update in the history -/
 example := batch_within_limits .fixed xZ yC rfl yC_nonempty ⟨50, 1000, 100, 3⟩ [false, true]
